@@ -13,10 +13,40 @@ import lpcase
 import lpgen
 import lpspec
 import pools
-from lib import fq
+from lib import fq, fql
 
 TOL = 1e-9
 REL = 2e-6
+
+
+def instance_ub(d):
+    """a generous bound on every quantity of a feasible allocation of this instance (sum of everything there is)"""
+    n = d["NM"]
+    tot = d["sf0"] + sum(d["crops_prod"]) + d["meat_total"] + sum(d["meat_monthly"]) + sum(d["scp_prod"]) + sum(d["cs_prod"])
+    tot += sum(d["milk"]) + sum(d["greenhouse"]) + sum(d["fish"]) + sum(d["max_feed"]) + sum(d["max_biofuel"])
+    tot += sum(d["feed_charge"]) + sum(d["biofuel_charge"]) + max(d["meat_running"] + [0.0])
+    tot += sum(d["sw_max_density"] * b * (2 + g / 100.0) + b for b, g in zip(d["built_area"], d["growth"]))
+    tot += sum(sum(d["pin_" + t]) for t in ("cr", "sf", "meat", "scp", "cs", "sw")) * 1.0001
+    return 2.0 * max(1.0, tot, 100.0 * tot / d["need"])
+
+CERT_IMPORTS = lpcase.IMPORTS + "\nFrom Allfed Require Import Model.LPCert."
+
+
+def certificate(rec):
+    """duality certificate for one captured solve: multipliers from HiGHS on the code's own rows (rationalised exactly),
+    checked by Model/LPCert.check_cert against the MODEL's rows by vm_compute.  -> (defs, term) or None"""
+    st, opt, y = lpspec.solve_rows(rec["rows"], want_duals=True)
+    if st != 0:
+        return None
+    rep = rec["percent_fed_from_model"]
+    if abs(rep - opt) / (1.0 + abs(opt)) > REL:
+        return None           # CBC precision gap (triaged by the audit): nothing to certify at 2e-6
+    y = [0.0 if abs(v) < 1e-13 else v for v in y]
+    claimed = rep * (1 + REL) + 1e-7
+    ty = lpcase.coq_ty(rec["ty"])
+    ub = instance_ub(rec["lp_in"])
+    return (f"Definition x_y : list Q := {fql(y)}.\n",
+            f"(if check_cert (build x_in {ty}) x_y {fq(ub)} {fq(claimed)} then 0 else 1)%nat")
 
 
 def run(ctx):
@@ -47,6 +77,7 @@ def run(ctx):
     dist = {"solved_synthetic": 0, "infeasible_synthetic": 0, "real_solves": 0, "to_humans": 0, "to_animals": 0,
             "max_rel_gap": 0.0, "spec_infeasible": 0}
     file_specs, meta = [], []
+    cert_specs, cert_meta = [], []
 
     def audit(rec, where, rerun):
         """reported optimum vs independent formulation"""
@@ -99,7 +130,13 @@ def run(ctx):
         if "values" in rec:
             dist["solved_synthetic"] += 1
             audit(rec, {"synthetic": True}, {"spec": d})
+            if ok and len(cert_specs) < (6 if ctx.quick else 80) and rec["percent_fed_from_model"] > 0:
+                c = certificate(rec)
+                if c:
+                    cert_specs.append((lpcase.instance_defs("x", {"lp_in": rec["lp_in"]}) + c[0], [c[1]]))
+                    cert_meta.append({"synthetic": True, "N": d["NM"], "ty": d["ty"]})
             ctx.sample({"kind": "synthetic", "N": d["NM"], "ty": d["ty"], "reported": rec["percent_fed_from_model"]}, limit=3)
+    nreal_cert = [0]
     for run_ in res["real"]:
         if "error" in run_:
             dist.setdefault("real_failed", []).append([run_["iso3"], run_["error"]])
@@ -114,6 +151,12 @@ def run(ctx):
             where = {"iso3": run_["iso3"], "solve": k, "scenario": run_["option"].get("scenario"),
                      "shutoff": run_["option"].get("shutoff"), "stocks": run_["option"].get("ratio_stocks_untouched")}
             audit(rec, where, {"rerun": {"iso3": run_["iso3"], "option": run_["option"], "solve": k}})
+            if ok and "rows" in rec and nreal_cert[0] < (2 if ctx.quick else 40):
+                c = certificate(rec)
+                if c:
+                    nreal_cert[0] += 1
+                    cert_specs.append((lpcase.instance_defs("x", {"lp_in": rec["lp_in"]}) + c[0], [c[1]]))
+                    cert_meta.append(where)
             if ok and "rows" in rec and (k == 0 or not ctx.quick):
                 scale = lpcase.scale_of(rec["lp_in"])
                 file_specs.append((lpcase.instance_defs("x", {k2: rec[k2] for k2 in ("lp_in", "rows")}),
@@ -132,6 +175,22 @@ def run(ctx):
         ctx.tie_ok = False
         first = next(m for m, c in zip(meta, codes) if c[0] != 0)
         ctx.broken.append(f"correspondence Model/LP.build vs Optimizer rows: {nbad} instances differ, first {first}")
+    # ---- per-instance optimality certificates, evaluated in the kernel's VM against the MODEL's rows
+    okc, badc, _ = ctx.build(["Proofs/LPCert.vo"])
+    if okc and cert_specs:
+        ccodes = ctx.coq_codes_files("c02cert", CERT_IMPORTS, cert_specs, timeout=2400)
+        rejected = [m for m, c in zip(cert_meta, ccodes) if c[0] != 0]
+        dist["certificates"] = {"checked": len(ccodes), "accepted": len(ccodes) - len(rejected), "rel": REL,
+                                "ub": "2 x max(1, T, 100 T / need) with T the sum of all supplies, charges, ceilings and pins of the instance"}
+        ctx.assumptions.append("certificates: every quantity of a feasible allocation is below the instance bound ub (hypothesis of "
+                               "check_cert_optimal; discharged in Coq by Proofs/LP_Bound.v when that file is present)")
+        for m in rejected[:3]:
+            ctx.violation("C02:certificate-rejected", f"the duality certificate for the reported optimum is rejected on {m} "
+                          "(the reported value is not certified optimal for the model's LP within 2e-6)",
+                          {"kind": "counterexample", "where": m})
+    elif not okc:
+        ctx.proof_ok = False
+        ctx.broken.append(f"Proofs/LPCert does not compile: {badc}")
 
 
 def replay(rep):
